@@ -37,6 +37,8 @@ pub struct CaSpec {
     pub ku: Option<Vec<u8>>,
     pub win: Win,
     pub nc: Option<NcSpec>,
+    /// fields that carry extensions no validator acts on: 0 none, 1 CRL distribution point, 2 non-critical custom extension, 3 both (an alternative name on a CA is not inert: name constraints apply to it)
+    pub inert: u8,
 }
 
 #[derive(Clone, Debug)]
@@ -51,7 +53,7 @@ pub struct ChainSpec {
 }
 
 fn base_ca() -> CaSpec {
-    CaSpec { is_ca: IsCaSpec::Unconstrained, ku: Some(vec![5, 6]), win: Win::Inside, nc: None }
+    CaSpec { is_ca: IsCaSpec::Unconstrained, ku: Some(vec![5, 6]), win: Win::Inside, nc: None, inert: 0 }
 }
 
 impl ChainSpec {
@@ -65,6 +67,10 @@ impl ChainSpec {
 
 fn dns_matches(name: &str, base: &str) -> bool {
     let (n, b) = (name.to_ascii_lowercase(), base.to_ascii_lowercase());
+    // a constraint with a leading dot stands for sub-domains only (OpenSSL nc_dns and webpki agree on this reading)
+    if b.starts_with('.') {
+        return n.len() > b.len() && n.ends_with(&b);
+    }
     n == b || n.ends_with(&format!(".{}", b))
 }
 
@@ -176,6 +182,12 @@ fn build(c: &ChainSpec, pool: &KeysPool) -> Result<(Vec<u8>, Vec<Vec<u8>>, Vec<u
         st.not_before = nb;
         st.not_after = na;
         st.nc = ca.nc.clone();
+        if ca.inert & 1 != 0 {
+            st.crl_dps = vec![vec![format!("http://crl.example/level{}", j)]];
+        }
+        if ca.inert & 2 != 0 {
+            st.custom_exts = vec![CustomExtSpec { oid: vec![1, 3, 6, 1, 4, 1, 55555, 1], critical: false, content: vec![0x05, 0x00], acme: false }];
+        }
         st.serial = Some(vec![0x10 + j as u8]);
         st.use_aki = j > 0;
         let p = to_params(&st)?;
@@ -265,6 +277,11 @@ pub fn chain_space() -> Space<ChainSpec> {
         d = d.v("not yet valid", move |c: &mut ChainSpec| c.cas[j].win = Win::NotYet);
         d = d.v("expired", move |c: &mut ChainSpec| c.cas[j].win = Win::Expired);
         dims.push(d);
+        let mut d = Dim::new(Box::leak(format!("{}.inert_fields", who).into_boxed_str()));
+        d = d.v("crl distribution point", move |c: &mut ChainSpec| c.cas[j].inert = 1);
+        d = d.v("custom extension", move |c: &mut ChainSpec| c.cas[j].inert = 2);
+        d = d.v("crl dp + custom extension", move |c: &mut ChainSpec| c.cas[j].inert = 3);
+        dims.push(d);
         if j < 2 {
             let mut d = Dim::new(Box::leak(format!("{}.name_constraints", who).into_boxed_str()));
             let ncs: Vec<(&str, NcSpec)> = vec![
@@ -277,6 +294,9 @@ pub fn chain_space() -> Space<ChainSpec> {
                 ("permitted fd00::/8", NcSpec { permitted: vec![cidr(fd00(), 8)], excluded: vec![] }),
                 ("excluded fd00::/8", NcSpec { permitted: vec![], excluded: vec![cidr(fd00(), 8)] }),
                 ("permitted dns + excluded sub", NcSpec { permitted: vec![SubtreeSpec::Dns("example.com".into())], excluded: vec![SubtreeSpec::Dns("bad.example.com".into())] }),
+                ("present but empty", NcSpec { permitted: vec![], excluded: vec![] }),
+                ("permitted dns .example.com", NcSpec { permitted: vec![SubtreeSpec::Dns(".example.com".into())], excluded: vec![] }),
+                ("excluded dns .example.com", NcSpec { permitted: vec![], excluded: vec![SubtreeSpec::Dns(".example.com".into())] }),
                 ("permitted 10.1.2.3/32", NcSpec { permitted: vec![cidr(vec![10, 1, 2, 3], 32)], excluded: vec![] }),
                 ("excluded 10.1.2.3/32", NcSpec { permitted: vec![], excluded: vec![cidr(vec![10, 1, 2, 3], 32)] }),
             ];
